@@ -212,6 +212,63 @@ func (s *Session) report(id string, cfg *CheckConfig, dev bool, t0 time.Time, lo
 	for _, l := range dedup(knownLines) {
 		fmt.Println(l)
 	}
+	// thorough tier: oracle sanity. Every replay template bound to a contract of this property is run over its whole
+	// boundary corpus against the unchanged code: its oracle must stay silent (a template tied to a known finding is
+	// expected to reproduce and is skipped). A template that does not compile is an engine error.
+	var oracleSanity []string
+	if s.tier == "thorough" && os.Getenv("VERIF_NO_SELFTEST") == "" && nviol == 0 {
+		knownTmpl := map[string]bool{}
+		for i, o := range failed {
+			if known.match(id, stripOrdinals(o.Name)) != nil && failedUnit[i].Con != nil {
+				knownTmpl[failedUnit[i].Con.replayFor(o.Name)] = true
+			}
+		}
+		seen := map[string]bool{}
+		for _, u := range s.units {
+			if u.Con == nil {
+				continue
+			}
+			var ts []string
+			if u.Con.Replay != "" {
+				ts = append(ts, u.Con.Replay)
+			}
+			for _, r := range u.Con.ReplayFor {
+				ts = append(ts, r.Tmpl)
+			}
+			for _, tn := range ts {
+				if seen[tn] || knownTmpl[tn] {
+					continue
+				}
+				seen[tn] = true
+				tb, err := os.ReadFile(filepath.Join(verifRoot, "replay", tn))
+				if err != nil || len(corpusRe.FindAllStringSubmatch(string(tb), -1)) == 0 {
+					continue // driven by solver models only
+				}
+				uc, cc := *u, *u.Con
+				cc.Replay = tn
+				uc.Con = &cc
+				rr := s.corpusReplay(&uc, &Obligation{Name: "oracle-sanity:" + tn}, string(tb), "oracle sanity run on the unchanged tree")
+				switch {
+				case rr.Reproduced:
+					nviol++
+					exit = 1
+					os.MkdirAll(vdir, 0o755)
+					vf := filepath.Join(vdir, "oracle-sanity_"+sanitize(tn)+".json")
+					b, _ := json.MarshalIndent(map[string]any{"property": id, "obligation": "oracle-sanity:" + tn, "replay": rr}, "", " ")
+					os.WriteFile(vf, b, 0o644)
+					fmt.Printf("VIOLATION property=%s replay=%s\n", id, vf)
+					fmt.Printf("  the oracle of replay template %s fails on the unchanged code: %s\n", tn, trunc(rr.Inputs, 200))
+					oracleSanity = append(oracleSanity, tn+": REPRODUCED "+rr.Inputs)
+				case strings.Contains(rr.Note, "DID NOT COMPILE"):
+					exit = 1
+					fmt.Printf("ENGINE-ERROR property=%s replay template %s does not compile: %s\n", id, tn, trunc(rr.Note, 300))
+					oracleSanity = append(oracleSanity, tn+": does not compile")
+				default:
+					oracleSanity = append(oracleSanity, tn+": silent on the whole corpus")
+				}
+			}
+		}
+	}
 	// evidence
 	var tb []string
 	for t := range trusted {
@@ -253,6 +310,9 @@ func (s *Session) report(id string, cfg *CheckConfig, dev bool, t0 time.Time, lo
 		"undischarged":             namesOf(failed),
 		"contract_files":           s.cs.Files,
 		"solver_timeout_s":         s.timeoutS,
+	}
+	if len(oracleSanity) > 0 {
+		cov["replay_oracle_sanity"] = oracleSanity
 	}
 	if len(probes) > 0 {
 		cov["generated_probes"] = probes
